@@ -67,10 +67,14 @@ var verifRefQueries = []string{
 	`vector(time())`,
 	`time() * 2 + foo`,
 	`pi() * time()`,
+	`sum without () (foo)`,
+	`-(-foo)`,
+	`max_over_time(foo{a="x"}[2m] offset 30s) - on(a) foo`,
+	`count without () (foo)`,
 }
 
 // quick tier: one or two shapes per operator family (indices into verifRefQueries)
-var verifRefQuick = []int{1, 3, 9, 13, 16, 25, 28, 31, 34, 35, 40, 44, 46, 48, 50}
+var verifRefQuick = []int{1, 3, 9, 13, 16, 25, 28, 31, 34, 35, 40, 44, 46, 48, 50, 51, 52}
 
 func verifSameSample(site string, gl, wl labels.Labels, gt, wt int64, gv, wv float64) {
 	sym.Assert(site+"/labels", labels.Equal(gl, wl))
